@@ -126,6 +126,8 @@ def run(ctx, rep):
     dirty_bit_rule(P, rep, 'R-C15-8', 'state_scrub_process', {'info_set'})
     counted_errors_block_refresh(P, rep, L, 'R-C15-2e')
     roles = quota_rule(P, rep, s, f, 5 if ctx.tier == 'quick' else 7)
+    quota_members_rule(P, rep, s, roles)
+    plan_argument_rule(P, rep)
     info_word_rule(P, rep, 'R-C15-6')
     plan_limits_rule(P, rep, s, {'full': full[0], 'bad': badp[0], 'new': newp[0]} if (len(full) == 1 and len(badp) == 1 and len(newp) == 1) else None, 'R-C15-7', roles)
 
@@ -235,7 +237,170 @@ def quota_rule(P, rep, s, be, nmax=5, rid='R-C15-5'):
     if bad:
         rep.fail(rid, 'state_scrub quota derivation', s.file, bad, function='state_scrub', construct='quota derivation')
     rep.extra['quota_configurations'] = n_runs
-    return {'quota': a_quota, 'recent': a_recent, 'plan': a_ps[0].id}
+    return {'quota': a_quota, 'recent': a_recent, 'plan': a_ps[0].id, 'map': a_map.id, 'count': a_cnt.id}
+
+
+def plan_argument_rule(P, rep, rid='R-C15-4p'):
+    """the numeric argument of -p is a share of the array (0..100), of -o a number of days (0..1000).  Both end in an `int` that also
+    carries the named plans as negative constants (bad -2, new -3, full -4) and `not given` as -1: a number that is converted to int
+    BEFORE its range is tested lets `-p -4` (or 4294967292) run the full plan and 4294967346 run 50%.  The option code between the
+    strtoul() and the next getopt call is interpreted with adversarial results of strtoul: accepted iff within the range, and then the
+    variable handed to state_scrub holds that value."""
+    rep.rule(rid, 'main: the number given to -p / -o is accepted only within 0..100 / 0..1000 as parsed (before any narrowing), and reaches state_scrub unchanged', 2)
+    m = P.fn('main')
+    rep.analysed(m)
+    sc = list(m.calls('state_scrub'))
+    if len(sc) != 1:
+        raise AnalysisBroken('main: the call of state_scrub was not found')
+
+    def alloca_behind(o):
+        i = m.inst_of(o)
+        while i is not None and i.op in ('load', 'zext', 'sext', 'bitcast', 'trunc'):
+            j = m.inst_of(i.ops[0])
+            if i.op == 'load' and j is not None and j.op == 'alloca':
+                return j
+            i = j
+        return None
+    targets = {'percentage (-p)': (alloca_behind(sc[0].ops[1]), 100), 'days (-o)': (alloca_behind(sc[0].ops[2]), 1000)}
+    parses = list(m.calls('strtoul'))
+    done = 0
+    for what, (al, top) in targets.items():
+        if al is None:
+            raise AnalysisBroken('main: the variable handed to state_scrub for the %s was not identified' % what)
+        sites = []
+        for c in parses:
+            # the parse whose (possibly staged) result is stored into the variable before the next option is read
+            r_ = m.reach([c], stop={g.id for g in m.calls('getopt_long')})
+            if any(u.op == 'store' and m.strip(u.ops[1]) == ['i', al.id] and u.id in r_ for u in m.users.get(al.id, ())):
+                sites.append(c)
+        if len(sites) != 1:
+            raise AnalysisBroken('main: the strtoul() that parses the %s was not identified (%d candidates)' % (what, len(sites)))
+        c = sites[0]
+        bad = None
+        vals = [0, 1, top, top + 1, (1 << 31) - 1, 1 << 31, (1 << 32) - 4, (1 << 32) - 2, (1 << 32) - 1, (1 << 32) + 50, (1 << 64) - 4, (1 << 64) - 1]
+        for v in vals:
+            def ext(ins, args, v=v):
+                if ins.callee == 'strtoul':
+                    R.mem[(args[1].reg, args[1].off)] = R.array('end', [0], 1)
+                    return (v,)
+                if ins.callee in ('log_fatal', 'log_error'):
+                    return (0,)
+                if ins.callee == 'exit':
+                    raise _Refused()
+                return None
+            R = region.Region(P, extern=ext)
+            R.zero_regions.add(('glob', 'optarg')); R.zero_regions.add(('glob', 'exit_failure'))
+            R.discover = []         # argc / argv are read to prepare the next getopt call: any value
+            refused = False
+            try:
+                R.run(m, c.block, stop=lambda ins: ins.callee == 'getopt_long', start_idx=c.idx)
+                raise AnalysisBroken('main: the option region returned')
+            except region.Stop:
+                pass
+            except _Refused:
+                refused = True
+            pl = R.local_by_id(m, al.id)
+            got = R.mem.get((pl.reg, 0))
+            inrange = v <= top
+            if refused == inrange or (inrange and got != v):
+                bad = bad or ('strtoul() = %d: %s' % (v, ('refused although within 0..%d' % top) if refused else ('accepted, the variable handed to state_scrub becomes %s' % (got - (1 << 32) if isinstance(got, int) and got >= (1 << 31) else got))))
+        rep.check(bad is None, rid, 'main: the %s is range-checked as parsed' % what, c.loc(),
+                  '%d adversarial parse results: accepted iff <= %d' % (len(vals), top) if bad is None else bad + ' -- negative values of that variable name the other plans (bad -2, new -3, full -4) or "not given": the scrub verifies another set of stripes than the share / age asked for',
+                  function='main', construct='%s range' % what.split()[0])
+        done += 1
+
+
+class _Refused(Exception):
+    pass
+
+
+def quota_members_rule(P, rep, s, roles, rid='R-C15-5b'):
+    """`repeated default scrubs eventually cover every stripe`: a stripe marked bad is selected by every plan whatever its time, and
+    keeps its old time as long as nobody repairs it.  If it also takes a place in the sorted time list from which the quota is cut, it
+    takes the SAME place at every run: with as many lasting bad stripes as the quota (1/12 of the array) the time limit never moves
+    past them and the healthy stripes are never verified again.  The loop that fills the time list is interpreted (finite domain:
+    every array of up to 4 positions over {unused, healthy old, healthy new, bad old, bad new}): the list handed to the sort holds
+    exactly the times of the used stripes that are not bad, and an array whose used stripes are all bad is not refused as empty."""
+    rep.rule(rid, 'state_scrub: the time list from which the quota is cut holds exactly the used stripes that are not bad (bad ones are scrubbed on top of the quota and cannot occupy it for ever); an all-bad array is not taken for an empty one', 700)
+    qs = list(s.calls('qsort'))
+    a_map = s.insts[roles['map']]
+    # the allocation of the list: the call whose result is stored into the list variable
+    st0 = None
+    for u in s.users.get(a_map.id, ()):
+        if u.op == 'store' and s.strip(u.ops[1]) == ['i', a_map.id]:
+            v = s.inst_of(u.ops[0])
+            while v is not None and v.op == 'bitcast':
+                v = s.inst_of(v.ops[0])
+            if v is not None and v.op == 'call' and s.dominates(u, qs[0]):
+                st0 = u
+    if st0 is None:
+        raise AnalysisBroken('state_scrub: the allocation of the time list was not found')
+    mk = P.fn('info_make')
+    words = {'unused': 0}
+    for nm, t, b in (('old', 16, 0), ('new', 32, 0), ('badold', 16, 1), ('badnew', 32, 1)):
+        words[nm] = region.Region(P).run(mk, 0, [t, b, 0, 0])
+    tm = {'old': 16, 'new': 32}
+
+    def ext(R, infos):
+        def f(ins, args):
+            if ins.callee == 'log_tag':
+                return (0,)
+            if ins.callee == 'info_get':
+                return (infos[args[1]],)
+            if ins.callee in ('log_fatal', 'exit', 'log_error'):
+                raise _Refused()
+            return None
+        return f
+    # inputs of the region by role: the only 32-bit local read before written is the number of positions
+    probe = region.Region(P, extern=None)
+    probe.extern = ext(probe, [words['old'], words['old']])
+    probe.discover = []
+    pm = probe.local_by_id(s, a_map.id); probe.mem[(pm.reg, 0)] = probe.array('timemap', [0, 0], 8)
+    try:
+        probe.run(s, st0.block, stop=lambda ins: ins.callee == 'qsort', start_idx=st0.idx + 1)
+    except (region.Stop, _Refused):
+        pass
+    ins32 = sorted({aid for aid, o_, ty in probe.discover if ty == 'i32' and aid != a_map.id})
+    ptrs = sorted({aid for aid, o_, ty in probe.discover if ty not in ('i32', 'i64') and aid != a_map.id})
+    if len(ins32) != 1:
+        raise AnalysisBroken('state_scrub: the bound of the loop that fills the time list was not identified (%s)' % ins32)
+    bad = None
+    n_runs = 0
+    for n in range(1, 5):
+        for kinds in itertools.product(('unused', 'old', 'new', 'badold', 'badnew'), repeat=n):
+            if all(k == 'unused' for k in kinds):
+                continue
+            infos = [words[k] for k in kinds]
+            R = region.Region(P, extern=None)
+            R.extern = ext(R, infos)
+            R.discover = []
+            pl = R.local_by_id(s, a_map.id); R.mem[(pl.reg, 0)] = R.array('timemap', [0] * n, 8)
+            pb = R.local_by_id(s, ins32[0]); R.mem[(pb.reg, 0)] = n
+            want = [tm[k] for k in kinds if k in tm]
+            n_runs += 1
+            try:
+                R.run(s, st0.block, stop=lambda ins: ins.callee == 'qsort', start_idx=st0.idx + 1)
+                raise AnalysisBroken('state_scrub: the region that fills the time list returned')
+            except region.Stop:
+                pass
+            except _Refused:
+                if bad is None:
+                    bad = 'stripes %s: the command stops with a fatal message before the plan is made (an array whose used stripes are all marked bad is taken for an empty one: the bad stripes are never scrubbed again)' % (list(kinds),)
+                continue
+            except region.OutOfBounds as e:
+                bad = bad or 'stripes %s: %s' % (list(kinds), e)
+                continue
+            pc = R.local_by_id(s, roles['count'])
+            cnt = R.mem.get((pc.reg, 0))
+            got = [R.mem.get((('array', 'timemap'), k_ * 8)) for k_ in range(cnt or 0)] if isinstance(cnt, int) and cnt <= n else None
+            if (got is None or sorted(got) != sorted(want)) and bad is None:
+                bad = 'stripes %s: the list handed to the sort has %s entries %s; the quota must be cut from the %d used stripes that are not bad %s -- a bad stripe keeps its time while it is not repaired, so it fills the same place of the quota at every run and the healthy stripes behind it are never reached' % (list(kinds), cnt, got, len(want), want)
+    rep.extra['quota_member_configurations'] = n_runs
+    if bad:
+        rep.fail(rid, 'state_scrub: members of the time list', st0.loc(), bad, function='state_scrub', construct='bad stripes in the quota')
+    else:
+        for _ in range(n_runs):
+            rep.ok(rid, 'array configuration')
 
 
 def info_word_rule(P, rep, rid):
